@@ -197,11 +197,15 @@ pub struct ExtOpts {
     pub with_spec: bool,
     pub with_outline: bool,
     pub max_privates: usize,
+    /// upper bound on the number of output predicates (default 2)
+    pub max_outputs: usize,
+    /// the right program leaves out each output predicate with probability 1/2
+    pub skip_many_outputs: bool,
 }
 
 impl Default for ExtOpts {
     fn default() -> Self {
-        ExtOpts { hostile_identifiers: false, underscore_identifiers: false, two_arities: false, preamble_names: false, with_spec: false, with_outline: false, max_privates: 2 }
+        ExtOpts { hostile_identifiers: false, underscore_identifiers: false, two_arities: false, preamble_names: false, with_spec: false, with_outline: false, max_privates: 2, max_outputs: 2, skip_many_outputs: false }
     }
 }
 
@@ -232,7 +236,10 @@ pub fn gen_signature(r: &mut Rng, o: &ExtOpts) -> Signature {
         }
     }
     let mut outputs: Vec<(String, usize)> = Vec::new();
-    for _ in 0..(1 + r.upto(2)) {
+    if o.max_outputs > 2 {
+        out_pool.extend([("oa", 1), ("ob", 1), ("oc", 0), ("od", 2)]);
+    }
+    for _ in 0..(1 + r.upto(o.max_outputs.max(1))) {
         let (n, a) = out_pool[r.upto(out_pool.len())];
         if !outputs.iter().any(|(x, y)| x == n && *y == a) && !inputs.iter().any(|(x, y)| x == n && *y == a) {
             outputs.push((n.to_string(), a));
@@ -501,7 +508,7 @@ pub fn gen_external(r: &mut Rng, o: &ExtOpts) -> (ExtTexts, Signature) {
         }
         v
     };
-    let mut symbols: Vec<&str> = if o.hostile_identifiers { vec!["a", "b", "res", "flag", "n_g", "out", "res0"] } else { vec!["a", "b"] };
+    let mut symbols: Vec<&str> = if o.hostile_identifiers { vec!["a", "b", "res", "flag", "n_g", "out", "res0", "aB", "aa", "a_b", "aZ", "a0"] } else { vec!["a", "b"] };
     if o.underscore_identifiers {
         symbols.push("_c");
     }
@@ -522,6 +529,14 @@ pub fn gen_external(r: &mut Rng, o: &ExtOpts) -> (ExtTexts, Signature) {
             let skip_right = if sig.outputs.len() > 1 && r.chance(1, 6) { Some(r.upto(sig.outputs.len())) } else { None };
             gen_side_program(r, &sig, &rp, &symbols, skip_right)
         }
+    };
+    let right = if o.skip_many_outputs {
+        // a right program over a random subset of the output predicates
+        let mut sub = sig.clone();
+        sub.outputs.retain(|_| r.chance(1, 2));
+        gen_side_program(r, &sub, &rp, &symbols, None)
+    } else {
+        right
     };
     let with_assumptions = r.chance(1, 2);
     let ug = gen_user_guide(r, &sig, with_assumptions);
@@ -564,7 +579,7 @@ pub fn gen_strong_with(r: &mut Rng, so: StrongOpts) -> (String, String) {
         o.symbols.push("_c".into());
     }
     if so.hostile_symbols {
-        o.symbols = vec!["a".into(), "p".into(), "t".into(), "s".into(), "hp".into(), "s0".into(), "x__s".into(), "p_i".into()];
+        o.symbols = vec!["a".into(), "p".into(), "t".into(), "s".into(), "hp".into(), "s0".into(), "x__s".into(), "p_i".into(), "aB".into(), "aa".into(), "a_b".into(), "aZ".into(), "a0".into(), "maxValue".into(), "max_value".into()];
     }
     if so.preamble_names {
         o.symbols.extend(["general".to_string(), "symbol".to_string(), "f__integer__".to_string()]);
